@@ -19,7 +19,9 @@ commit gives its amount back; only the reviewed functions write memory_usage. No
 with the live sum (key.capacity() vs key.len() is value-level), the instantaneous bound beyond "admission is a CAS".
 """
 DECIDED = ["recovery debits the displaced generation's size and credits the scanned record's size", "reserve -> publish -> commit (+count) on new keys", "growth reserved before / shrink released after replacement",
-           "one count and one byte decrement per removal", "recovery accounting", "CAS admission against the limit; rollback on drop"]
+           "one count and one byte decrement per removal", "recovery accounting", "CAS admission against the limit; rollback on drop",
+           'one definition of the per-record footprint for every debit and credit',
+           'admission test re-evaluated on every compare-exchange attempt']
 NOT_DECIDED = ["exact equality of memory_usage with the live sum", "instantaneous bound under all interleavings"]
 ASSUMPTIONS = ["MemoryReservation is linear by type (commit consumes self; Drop rolls back)"]
 
